@@ -108,6 +108,10 @@ enum Case {
     /// (cut, then re-compressed: a producer that died mid-write), for the current
     /// format (machine) or the legacy v1 format (payload from the harness encoder)
     PayloadSweep { machine: Option<Machine>, v1_payload_hex: String },
+    /// a well-formed current-format encoding of a machine that validation must
+    /// turn away (one field of a valid machine made invalid): the parser has to
+    /// apply the same judgement as Machine::new
+    Invalid { machine: Machine, what: String },
 }
 
 fn case_json(c: &Case) -> Value {
@@ -124,6 +128,8 @@ fn case_json(c: &Case) -> Value {
         Case::Sweep { machine } => {
             json!({"kind": "sweep", "machine": mach::enc(machine), "machine_readable": short(&mach::describe(machine))})
         }
+        Case::Invalid { machine, what } => json!({"kind": "invalid", "what": what,
+            "machine": mach::enc(machine), "machine_readable": short(&mach::describe(machine))}),
         Case::PayloadSweep { machine, v1_payload_hex } => json!({"kind": "payload_sweep",
             "machine": machine.as_ref().map(mach::enc), "v1_payload_hex": v1_payload_hex}),
     }
@@ -156,6 +162,10 @@ fn case_from(v: &Value) -> Option<Case> {
         },
         "sweep" => Case::Sweep {
             machine: mach::dec(v["machine"].as_str()?)?,
+        },
+        "invalid" => Case::Invalid {
+            machine: mach::dec(v["machine"].as_str()?)?,
+            what: v["what"].as_str().unwrap_or("").to_string(),
         },
         "payload_sweep" => Case::PayloadSweep {
             machine: v["machine"].as_str().and_then(mach::dec),
@@ -256,6 +266,83 @@ fn small_machine(g: &mut Gen) -> Machine {
     mc.p_counter = 0.4;
     mc.p_limit = 0.5;
     mach::gen_machine(g, &mc)
+}
+
+/// make exactly one field of a valid machine invalid
+fn invalidate(g: &mut Gen, mut m: Machine) -> (Machine, String) {
+    use enum_map::enum_map;
+    use maybenot::state::{State, Trans};
+    let n = m.states.len();
+    let si = g.usize(n);
+    let bad_f = |g: &mut Gen| *g.pick(&[f64::NAN, f64::INFINITY, -0.5, 1.5, -1e-300, 1.0000000000000002]);
+    let bad_p = |g: &mut Gen| *g.pick(&[0.0f32, -0.5, 1.5, f32::NAN, f32::INFINITY, 1.0000001]);
+    let rebuild = |st: &State, f: &mut dyn FnMut(&mut enum_map::EnumMap<maybenot::event::Event, Vec<Trans>>)| -> State {
+        let mut t = st.get_transitions();
+        f(&mut t);
+        let mut s2 = State::new(t);
+        s2.action = st.action;
+        s2.counter = st.counter;
+        s2
+    };
+    let ev = *g.pick(&mach::ALL_EVENTS);
+    let what = match g.below(10) {
+        0 => {
+            m.max_padding_frac = bad_f(g);
+            "max_padding_frac"
+        }
+        1 => {
+            m.max_blocking_frac = bad_f(g);
+            "max_blocking_frac"
+        }
+        2 => {
+            m.states.clear();
+            "no states"
+        }
+        3 => {
+            let to = n + g.usize(3);
+            m.states[si] = rebuild(&m.states[si], &mut |t| t[ev] = vec![Trans(to, 1.0)]);
+            "transition target out of bounds"
+        }
+        4 => {
+            m.states[si] = rebuild(&m.states[si], &mut |t| t[ev] = vec![Trans(0, 0.25), Trans(0, 0.25)]);
+            "duplicate transition target"
+        }
+        5 => {
+            let p = bad_p(g);
+            m.states[si] = rebuild(&m.states[si], &mut |t| t[ev] = vec![Trans(0, p)]);
+            "transition probability outside (0,1]"
+        }
+        6 => {
+            let second = if n > 1 { 1 } else { maybenot::constants::STATE_END };
+            m.states[si] = rebuild(&m.states[si], &mut |t| t[ev] = vec![Trans(0, 0.75), Trans(second, 0.5)]);
+            "transition probabilities sum above 1"
+        }
+        7 => {
+            let d = crate::distsim::rejected_dist(g);
+            m.states[si].action = Some(match g.below(3) {
+                0 => maybenot::action::Action::SendPadding { bypass: false, replace: false, timeout: d, limit: None },
+                1 => maybenot::action::Action::BlockOutgoing { bypass: false, replace: false, timeout: mach::cdist(1.0), duration: d, limit: None },
+                _ => maybenot::action::Action::UpdateTimer { replace: false, duration: mach::cdist(1.0), limit: Some(d) },
+            });
+            "invalid distribution in an action"
+        }
+        8 => {
+            let d = crate::distsim::rejected_dist(g);
+            let c = maybenot::counter::Counter::new_dist(maybenot::counter::Operation::Increment, d);
+            if g.bool() {
+                m.states[si].counter.0 = Some(c);
+            } else {
+                m.states[si].counter.1 = Some(c);
+            }
+            "invalid distribution in a counter"
+        }
+        _ => {
+            let _ = enum_map! { maybenot::event::Event::NormalRecv => 0u8, _ => 0u8 };
+            m.states[si] = rebuild(&m.states[si], &mut |t| t[ev] = vec![Trans(maybenot::constants::STATE_SIGNAL + 1, 1.0)]);
+            "transition target beyond the pseudo-states"
+        }
+    };
+    (m, what.to_string())
 }
 
 fn gen_machine_for_roundtrip(g: &mut Gen, stats: &mut Stats) -> Machine {
@@ -504,6 +591,23 @@ fn v1_encode(g: &mut Gen, valid: bool) -> String {
 
 // ---------------------------------------------------------------------------
 
+/// parse a fixed small valid machine string; Some(true) = parsed and
+/// re-serialized identically, None = panic
+fn reference_parse() -> Option<bool> {
+    let mut mc = MachCfg::new(Family::Dyadic);
+    mc.max_states = 3;
+    mc.p_counter = 0.5;
+    let m = mach::gen_machine(&mut Gen::new(0x5eed_0011), &mc);
+    catch_sut(|| {
+        let s = m.serialize();
+        match Machine::from_str(&s) {
+            Ok(m2) => m2.serialize() == s,
+            Err(_) => false,
+        }
+    })
+    .ok()
+}
+
 fn drive(m: &Machine, calls: &[Call], seed: u64) -> Result<Vec<Vec<ActionRec>>, String> {
     let case = FwCase {
         machines: vec![m.clone()],
@@ -552,7 +656,43 @@ impl C11 {
         }
     }
 
+    /// Every case runs on a thread of its own, so that whatever state a parser
+    /// keeps per thread between calls starts fresh and a violation replays from
+    /// its own file; within the case, a small valid reference string is parsed
+    /// before and after the case's inputs: parsing is a function of the string,
+    /// so a reference that parsed before must still parse, identically, after a
+    /// hostile input has been rejected (history independence of the parser).
     fn run(&self, c: &Case, stats: &mut Stats) -> Vec<(String, String)> {
+        let r = std::thread::scope(|sc| {
+            std::thread::Builder::new()
+                .stack_size(64 << 20)
+                .spawn_scoped(sc, || {
+                    let before = reference_parse();
+                    let mut v = self.run_inner(c, stats);
+                    if v.is_empty() && before == Some(true) {
+                        stats.probe("reference_parsed_before_and_after_the_case");
+                        if reference_parse() != Some(true) {
+                            v.push((
+                                "history-dependent-parse".into(),
+                                "a valid reference string that parsed and round-tripped before this case's inputs no longer does after them, on the same thread".into(),
+                            ));
+                        }
+                    }
+                    v
+                })
+                .expect("spawn")
+                .join()
+        });
+        match r {
+            Ok(v) => v,
+            Err(_) => vec![(
+                "harness-thread".into(),
+                "the case thread panicked outside the guarded calls".into(),
+            )],
+        }
+    }
+
+    fn run_inner(&self, c: &Case, stats: &mut Stats) -> Vec<(String, String)> {
         let mut v: Vec<(String, String)> = vec![];
         match c {
             Case::RoundTrip { machine, hist_seed } => {
@@ -749,6 +889,26 @@ impl C11 {
                     }
                 }
             }
+            Case::Invalid { machine, what } => {
+                stats.inc("well_formed_invalid_machines");
+                stats.fault(&format!("invalid_field.{what}"));
+                if catch_sut(|| machine.validate()).map_or(true, |r| r.is_ok()) {
+                    // the corruption happened to be harmless (or validation itself
+                    // crashed, which is C12's matter): nothing to decide here
+                    stats.inc("invalid_case_was_valid");
+                    return v;
+                }
+                let Ok(s) = catch_sut(|| machine.serialize()) else {
+                    return v;
+                };
+                let r = catch_sut(|| Machine::from_str(&s));
+                self.check_parsed(
+                    r,
+                    &format!("the well-formed encoding of a machine with an invalid field ({what})"),
+                    &mut v,
+                    stats,
+                );
+            }
             Case::Sweep { machine } => {
                 let s = machine.serialize();
                 if s.len() > 400 {
@@ -791,7 +951,12 @@ impl C11 {
                 machine: gen_machine_for_roundtrip(g, stats),
                 hist_seed: g.u64(),
             },
-            30..=74 => {
+            30..=33 => {
+                let base = small_machine(g);
+                let (machine, what) = invalidate(g, base);
+                Case::Invalid { machine, what }
+            }
+            34..=74 => {
                 let base = if g.chance(0.03) {
                     let n = *g.pick(&[300, 1200]);
                     big_machine(g, n)
